@@ -235,7 +235,7 @@ def step (st : St) (line : String) : St × String :=
       let i := s.inst
       let sc := match i.xyScalar with | some x => toString x | none => "none"
       let ob := match i.outbound with | some b => hexStr b | none => "none"
-      (st, s!"st {i.started} {i.finished} {sc} {ob} {i.pwScalar}")
+      (st, s!"st {sc} {ob} {i.pwScalar}")
     | none => bad
   | ["p.mns", pid] =>
     match nat? pid >>= (find · st.systems) with
